@@ -3,9 +3,10 @@
    positive stay inductive). *)
 Require Extraction.
 Require Import ExtrOcamlBasic.
-From HV Require Import Dom.DomSpec RcDom.RcModel.
+From HV Require Import Dom.DomSpec Dom.DomCopy RcDom.RcModel.
 Extraction Language OCaml.
 Extraction "Extract/rcdom_model.ml"
   DomSpec.init DomSpec.apply DomSpec.contract_ok DomSpec.parent_of DomSpec.data_of DomSpec.kids DomSpec.size
+  DomCopy.clone_finite_op
   RcModel.rinit RcModel.rapply RcModel.abs RcModel.rdata RcModel.rparent RcModel.rkids RcModel.rsize
   RcModel.serialize RcModel.call_of.
